@@ -193,7 +193,8 @@ def session(ctx, rng, system, sol, parts, records, wheres, sid, ascii_mode, call
     rows = len(t)
     # a frame rate such that duration * fps is not close to an integer
     dur = float(t[-1] - t[0])
-    k = rng.choice([1, 2, 3, 5, rows // 2, rows, 2 * rows])
+    # the binary session of every solution always thins the solution (every frac-th row, frac >= 2); the ASCII one may also keep every row or ask for more frames than rows
+    k = rng.choice([x for x in (1, 2, 3, 5, rows // 2) if 1 <= x <= rows // 2] if not ascii_mode else [1, 2, 3, 5, rows // 2, rows, 2 * rows])
     fps = (k + 0.5) / dur
     target = int(dur * fps)
     base = os.path.join(ctx.scratch, f"export_{sid}")
@@ -220,6 +221,7 @@ def default_calls(parts):
         ("force", parts["force"], parts["force"], {}),
         ("contact", parts["contact"], parts["contact"], {}),
         ("rigid", rb1, rb1, {"file_name": "custom"}), ("point", pm0, pm0, {"file_name": "custom"}),              # the same file_name twice
+        ("point", pm1, pm1, {"file_name": "custom1"}),                                                           # a literal name that is also the name a repeated "custom" is moved to
         ("list", [("rigid", rb1), ("rigid", rb0)], [rb1, rb0], {}),                                              # a list whose first element was exported before
     ]
 
@@ -293,13 +295,17 @@ def make_rod_solution(rng, rows):
 
     system = System()
     rods = []
-    for name, p, nel, r0 in (("rod_a", 2, 2, np.zeros(3)), ("rod_b", 1, 4, np.array([0.0, 1.0, 0.0]))):
+    # rod_c: the degree and the frame count of rod_a on a mesh with twice as many elements (explicit ncells)
+    for name, p, nel, r0 in (("rod_a", 2, 2, np.zeros(3)), ("rod_b", 1, 4, np.array([0.0, 1.0, 0.0])), ("rod_c", 2, 4, np.array([0.0, -1.0, 0.5]))):
         Rod = make_CosseratRod(interpolation="Quaternion", mixed=False, polynomial_degree=p)
         cs = RectangularCrossSection(0.1, 0.1)
         Q = Rod.straight_configuration(nel, 2.0, r_OP0=r0)
         rod = Rod(cs, Simo1986(np.array([5.0, 1.0, 1.0]), np.array([0.5, 2.0, 2.0])), nel, Q=Q, q0=Q.copy(), cross_section_inertias=CrossSectionInertias(1.0, cs), name=name)
         rod._export_dict["level"] = "centerline + directors"
         rod._verif_num_frames = p * nel + 1
+        if name == "rod_c":
+            rod._export_dict["ncells"] = 2
+            rod._verif_num_frames = p * 2 + 1
         rods.append(rod)
     with warnings.catch_warnings(), _quiet():
         warnings.simplefilter("ignore")
@@ -348,8 +354,8 @@ def run(ctx):
     # rods: two rods with equal frame count and different meshes, exported one after the other (and as a list)
     for sid in range(nsess):
         rsys, rsol, rparts = make_rod_solution(rng, rng.choice([9, 14]))
-        ra, rb = rparts["rods"]
-        rcalls = [("rod", ra, ra, {}), ("rod", rb, rb, {}), ("rod", ra, ra, {}), ("list", [("rod", rb), ("rod", ra)], [rb, ra], {"file_name": "both"})]
+        ra, rb, rc = rparts["rods"]
+        rcalls = [("rod", ra, ra, {}), ("rod", rb, rb, {}), ("rod", rc, rc, {}), ("rod", ra, ra, {}), ("list", [("rod", rb), ("rod", ra)], [rb, ra], {"file_name": "both"})]
         nc, nf = session(ctx, rng, rsys, rsol, rparts, records, wheres, f"rod{sid}", bool(sid % 2), calls=rcalls)
         ncalls += nc
         frames.append(nf)
